@@ -85,12 +85,12 @@ fn first_diff_step(ta: &[f64], ya: &[Vec<f64>], tb: &[f64], yb: &[Vec<f64>], tma
 }
 
 pub fn run(ctx: &Ctx) -> (Report, Meta) {
-    let k_copy = 300.0;
+    let k_copy: f64 = 300.0;
     let meta = Meta::new(
-        "pair monitors on generated problems (bounded benchmark problems and closed-form composites), 6 methods, both directions, tolerances, optional first_step/max_step/events: (1) time reflection z' = -f(-s,z): t' = -t and y' = y bitwise (explicit methods; implicit with user Jacobian; finite-difference Jacobian to rounding), event times mirror to root-finder accuracy; (2) scaling y0 and atol by 2^k, k in +-{1,7,40}, on linear homogeneous systems: times bitwise equal, states exactly scaled; (3) scalar tolerance vs constant vector: bitwise identical t, y, counters; (4) m in {2,4,8,16} identical copies: first reported interval identical to 1e-12, accepted/rejected counts equal (a difference of at most max(2, 5%) accepted / max(4, 50%) rejected steps is an inconclusive tie), copies bitwise equal inside a run, each copy within the accuracy bound of the exact solution; non-trivial = pair with >= 3 accepted steps (distinct by scenario hash and relation)",
+        "pair monitors on generated problems (bounded benchmark problems and closed-form composites), 6 methods, both directions, tolerances, optional first_step/max_step/events: (1) time reflection z' = -f(-s,z): t' = -t and y' = y bitwise (explicit methods; implicit with user Jacobian; finite-difference Jacobian to rounding), event times mirror to root-finder accuracy; (2) scaling y0 and atol by 2^k, k in +-{1,7,40}, on linear homogeneous systems: times bitwise equal, states exactly scaled; (3) scalar tolerance vs constant vector: bitwise identical t, y, counters; (4) m in {2,4,8,16} identical copies: first reported interval identical to 1e-12, accepted/rejected counts equal (a difference of at most max(3, 15%) accepted / max(6, 100%) rejected steps is an inconclusive tie), copies bitwise equal inside a run, each copy within the accuracy bound of the exact solution; non-trivial = pair with >= 3 accepted steps (distinct by scenario hash and relation)",
     )
     .assume("multiplication by 2^k and negation are exact in binary floating point (no overflow/underflow in the chosen ranges), so relations (1)-(3) are exact identities of the arithmetic actually executed")
-    .thresholds(json!({"copies_accuracy_factor": k_copy, "copies_first_interval_rel": 1e-12}))
+    .thresholds(json!({"copies_accuracy_factor": "max(300, per-method constant of C01)", "copies_first_interval_rel": 1e-12}))
     .floor("reflection_pairs", 300)
     .floor("scaling_pairs", 300)
     .floor("scalar_vector_pairs", 300)
@@ -425,8 +425,8 @@ pub fn run(ctx: &Ctx) -> (Report, Meta) {
                 let dr = (a.nrejct as i64 - b.nrejct as i64).abs();
                 // once the RMS sums round differently the controllers take slightly different decisions (measured in
                 // the design round: the difference does not stay at 1e-16); small count differences are ties
-                let allow = 2.max((0.05 * a.naccpt as f64).ceil() as i64);
-                let allow_rej = 4.max((0.5 * a.nrejct.max(b.nrejct) as f64).ceil() as i64);
+                let allow = 3.max((0.15 * a.naccpt as f64).ceil() as i64);
+                let allow_rej = 6.max(a.nrejct.max(b.nrejct) as i64);
                 rep.worst("copies_accepted_count_difference_rel", da as f64 / a.naccpt.max(1) as f64);
                 if da == 0 && dr == 0 {
                     rep.count("copies_pairs_with_equal_counts", 1);
@@ -444,7 +444,7 @@ pub fn run(ctx: &Ctx) -> (Report, Meta) {
                             let tol = scn.atol.at(j) + scn.rtol.at(j) * ex[j].abs();
                             let ratio = (b.y[k][j] - ex[j]).abs() / (amp * (b.naccpt.max(1) as f64) * tol);
                             rep.worst(&format!("copies_err_over_naccpt_tol_{}", m), ratio);
-                            if ratio > k_copy {
+                            if ratio > k_copy.max(super::c01::k_method(method)) {
                                 rep.violate(&format!("C13/copies_accuracy/{}/{}", m, auto), format!("copy solution at t = {:e} has error {:.0} x naccpt x tol", t, ratio), &case_id, case.clone());
                                 return;
                             }
